@@ -38,9 +38,12 @@ def build(sc, tensor=None):
         fw = {}
         for k, v in sc["host_firewall"].get(f"{ad[0]},{ad[1]}", {}).items():
             fw[tuple(int(x) for x in k.split(","))] = [srvn[j] for j in v]
-        hosts[ad] = Host(address=ad, os={n: False for n in osn}, services={n: False for n in srvn},
-                         processes={n: False for n in procn}, firewall=fw, value=sc["hval"][i],
-                         discovery_value=sc["dval"][i])
+        cfg = sc.get("cfg")
+        hosts[ad] = Host(address=ad,
+                         os={n: bool(cfg["os"][i][k]) if cfg else False for k, n in enumerate(osn)},
+                         services={n: bool(cfg["srv"][i][k]) if cfg else False for k, n in enumerate(srvn)},
+                         processes={n: bool(cfg["proc"][i][k]) if cfg else False for k, n in enumerate(procn)},
+                         firewall=fw, value=sc["hval"][i], discovery_value=sc["dval"][i])
     fw = {tuple(int(x) for x in k.split(",")): [srvn[j] for j in v] for k, v in sc["firewall"].items()}
     d = {u.SUBNETS: list(sc["subnets"]), u.TOPOLOGY: [list(r) for r in sc["topology"]], u.OS: osn, u.SERVICES: srvn,
          u.PROCESSES: procn, u.SENSITIVE_HOSTS: {tuple(a): 1.0 for a in sc["sensitive"]}, u.EXPLOITS: {},
@@ -172,6 +175,203 @@ def env_action_mask_oracle(rep, scenario, state):
     return {"clause_failures": bad, "n_actions": int(n)}
 
 
+def _width(sc):
+    return sc["bounds"][0] + sc["bounds"][1] + 6 + sc["n_os"] + sc["n_srv"] + sc["n_proc"]
+
+
+def _spec_row(sc, i, initial, old=None):
+    """documented host vector of host i as the scenario describes it (computed from the JSON, not through the code)"""
+    B0, B1 = sc["bounds"]
+    W = _width(sc)
+    row = list(old) if old is not None else [0.0] * W
+    a = sc["addrs"][i]
+    row[a[0]] = 1.0
+    row[B0 + a[1]] = 1.0
+    c = B0 + B1
+    pub = float(sc["topology"][a[0]][0] == 1) if initial else 0.0
+    row[c], row[c + 1], row[c + 2] = 0.0, pub, pub
+    row[c + 3], row[c + 4], row[c + 5] = float(sc["hval"][i]), float(sc["dval"][i]), 0.0
+    cfg = sc.get("cfg")
+    o = c + 6
+    for k in range(sc["n_os"]):
+        row[o + k] = float(bool(cfg["os"][i][k])) if cfg else 0.0
+    for k in range(sc["n_srv"]):
+        row[o + sc["n_os"] + k] = float(bool(cfg["srv"][i][k])) if cfg else 0.0
+    for k in range(sc["n_proc"]):
+        row[o + sc["n_os"] + sc["n_srv"] + k] = float(bool(cfg["proc"][i][k])) if cfg else 0.0
+    return row
+
+
+def _layout_failures(sc):
+    """HostVector's class attributes against the documented layout of the scenario"""
+    from nasim.envs.host_vector import HostVector as HV
+    B0, B1 = sc["bounds"]
+    c = B0 + B1
+    osn, srvn, procn = names(sc)
+    want = {"_subnet_address_idx": 0, "_host_address_idx": B0, "_compromised_idx": c, "_reachable_idx": c + 1,
+            "_discovered_idx": c + 2, "_value_idx": c + 3, "_discovery_value_idx": c + 4, "_access_idx": c + 5,
+            "_os_start_idx": c + 6, "_service_start_idx": c + 6 + sc["n_os"],
+            "_process_start_idx": c + 6 + sc["n_os"] + sc["n_srv"], "state_size": _width(sc),
+            "num_os": sc["n_os"], "num_services": sc["n_srv"], "num_processes": sc["n_proc"]}
+    bad = []
+    got = {k: getattr(HV, k, None) for k in want}
+    if any(got[k] != want[k] for k in want) or tuple(HV.address_space_bounds or ()) != (B0, B1):
+        bad.append(f"C09.layout-constants: {({k: got[k] for k in want if got[k] != want[k]})} bounds={HV.address_space_bounds}")
+    for attr, nm in (("os_idx_map", osn), ("service_idx_map", srvn), ("process_idx_map", procn)):
+        if dict(getattr(HV, attr, {}) or {}) != {n: k for k, n in enumerate(nm)}:
+            bad.append(f"C09.{attr}-is-scenario-order: {getattr(HV, attr, None)}")
+    return bad
+
+
+def _garbage_layout(sc):
+    """an arbitrary previous global layout (another scenario's): the functions must not depend on it"""
+    from nasim.envs.host_vector import HostVector as HV
+    HV.reset()
+    HV._initialize((sc["bounds"][0] + 2, sc["bounds"][1] + 3), {"x": False, "y": False, "z": False}, {"p": False},
+                   {"q": False, "r": False, "s": False, "t": False})
+
+
+def layout_oracle(rep, scenario, net, state):
+    """native evaluation of the C09 layout clauses for _update_vector_idxs / _initialize / vectorize / tensorize /
+    generate_initial_state on the real classes"""
+    import numpy as np
+    from nasim.envs.host_vector import HostVector as HV
+    from nasim.envs.state import State
+    sc = rep["scenario"]
+    fn = rep["qualname"].rsplit(".", 1)[1]
+    variant = rep.get("variant", "default")
+    bounds = tuple(sc["bounds"])
+    addrs = [tuple(a) for a in sc["addrs"]]
+    h0 = scenario.hosts[addrs[0]]
+    bad = []
+    close_rows = lambda x, y: len(x) == len(y) and all(abs(float(a) - float(b)) < 1e-6 for a, b in zip(x, y))
+    if fn == "_update_vector_idxs":
+        _garbage_layout(sc)
+        HV.address_space_bounds = bounds
+        HV.num_os, HV.num_services, HV.num_processes = sc["n_os"], sc["n_srv"], sc["n_proc"]
+        HV._update_vector_idxs()
+        bad += [b for b in _layout_failures(sc) if b.startswith("C09.layout-constants")]
+    elif fn == "_initialize":
+        _garbage_layout(sc)
+        HV._initialize(bounds, h0.services, h0.os, h0.processes)
+        bad += _layout_failures(sc)
+    elif fn == "vectorize":
+        vec_kind, cls_kind = variant.split("/")
+        _garbage_layout(sc)
+        if cls_kind == "initialised":
+            HV.reset()
+            HV._initialize(bounds, h0.services, h0.os, h0.processes)
+        else:
+            HV.reset()
+        i = rep.get("host_index", 0)
+        host = scenario.hosts[addrs[i]]
+        if vec_kind == "given-row":
+            T = np.array(rep["tensor"], dtype=np.float32)
+            before = T.copy()
+            hv = HV.vectorize(host, bounds, T[i])
+            if not np.shares_memory(hv.vector, T): bad.append("C09.writes-into-given-vector: result does not use the given vector")
+            if not close_rows(list(T[i]), _spec_row(sc, i, False, old=list(before[i]))):
+                bad.append(f"C09.row: row {list(map(float, T[i]))} expected {_spec_row(sc, i, False, old=list(before[i]))}")
+            if any(not np.array_equal(T[j], before[j]) for j in range(len(addrs)) if j != i):
+                bad.append("C09.other-rows-untouched: another row of the tensor changed")
+        else:
+            hv = HV.vectorize(host, bounds)
+            if not close_rows(list(hv.vector), _spec_row(sc, i, False)):
+                bad.append(f"C09.row: vector {list(map(float, hv.vector))} expected {_spec_row(sc, i, False)}")
+        bad += _layout_failures(sc)
+    elif fn == "tensorize":
+        _garbage_layout(sc)
+        HV.reset()
+        st = State.tensorize(net)
+        rows = [list(map(float, r)) for r in st.tensor]
+        if len(rows) != len(addrs) or any(not close_rows(rows[i], _spec_row(sc, i, False)) for i in range(len(addrs))):
+            bad.append(f"C09.initial-rows: tensor {rows}")
+        bad += _layout_failures(sc)
+    elif fn == "generate_initial_state":
+        _garbage_layout(sc)
+        st = State.generate_initial_state(net)
+        rows = [list(map(float, r)) for r in st.tensor]
+        if len(rows) != len(addrs) or any(not close_rows(rows[i], _spec_row(sc, i, True)) for i in range(len(addrs))):
+            bad.append(f"C09.initial-state-decodes-to-scenario: tensor {rows}")
+        bad += ["C19." + b[4:] if b.startswith("C09.") else b for b in _layout_failures(sc)]
+    else:
+        raise SystemExit(f"layout oracle: unknown function {fn}")
+    return {"clause_failures": bad}
+
+
+def scalar_oracle(rep, scenario, net, state):
+    """native evaluation of the clauses of the scalar queries (dims, sizes, bounds, totals, score bound, goal query):
+    the expected value is computed from the JSON description of the scenario / state, not through the code"""
+    import numpy as np
+    import nasim.scenarios.utils as u
+    sc = rep["scenario"]
+    fn = rep["qualname"].rsplit(".", 1)[1]
+    N, W = len(sc["addrs"]), _width(sc)
+    osn, srvn, procn = names(sc)
+    addrs = [tuple(a) for a in sc["addrs"]]
+    sens = [tuple(a) for a in sc["sensitive"]]
+    # sensitive values as the scenario would hold them: the host's value
+    sval = {a: float(sc["hval"][addrs.index(a)]) for a in sens}
+    scenario.scenario_dict[u.SENSITIVE_HOSTS] = dict(sval)
+    scenario.scenario_dict[u.EXPLOITS] = {
+        "e_a": {u.EXPLOIT_SERVICE: srvn[0], u.EXPLOIT_OS: None, u.EXPLOIT_PROB: 1.0, u.EXPLOIT_COST: 1, u.EXPLOIT_ACCESS: 1},
+        "e_b": {u.EXPLOIT_SERVICE: srvn[-1], u.EXPLOIT_OS: osn[0], u.EXPLOIT_PROB: 0.5, u.EXPLOIT_COST: 2, u.EXPLOIT_ACCESS: 2}}
+    scenario.scenario_dict[u.PRIVESCS] = {
+        "p_a": {u.PRIVESC_PROCESS: procn[0], u.PRIVESC_OS: None, u.PRIVESC_PROB: 1.0, u.PRIVESC_COST: 1, u.PRIVESC_ACCESS: 2}}
+    from nasim.envs.network import Network
+    net = Network(scenario)
+    bad = []
+    eq = lambda x, y: abs(float(x) - float(y)) < 1e-6
+    if fn == "get_state_dims":
+        got = scenario.get_state_dims()
+        if not (isinstance(got, tuple) and len(got) == 2): bad.append(f"C09.dims-tuple: {got!r}")
+        elif (int(got[0]), int(got[1])) != (N, W): bad.append(f"C09.state-dims: {got} expected {(N, W)}")
+    elif fn == "get_observation_dims":
+        got = scenario.get_observation_dims()
+        if not (isinstance(got, tuple) and len(got) == 2): bad.append(f"C09.dims-tuple: {got!r}")
+        elif (int(got[0]), int(got[1])) != (N + 1, W): bad.append(f"C09.observation-dims: {got} expected {(N + 1, W)}")
+    elif fn == "get_action_space_size":
+        got = scenario.get_action_space_size()
+        if int(got) != N * (4 + 2 + 1): bad.append(f"C11.advertised-size: {got} expected {N * 7}")
+    elif fn in ("host_value_bounds", "host_discovery_value_bounds"):
+        got = getattr(scenario, fn)
+        vals = sc["hval"] if fn == "host_value_bounds" else sc["dval"]
+        if not (isinstance(got, tuple) and len(got) == 2): bad.append(f"C10.bounds-tuple: {got!r}")
+        elif not all(float(got[0]) - 1e-9 <= float(v) <= float(got[1]) + 1e-9 for v in vals):
+            bad.append(f"C10.bounds-cover-all-hosts: bounds {got} values {vals}")
+    elif fn == "get_total_sensitive_host_value":
+        got = net.get_total_sensitive_host_value()
+        if not eq(got, sum(sval.values())): bad.append(f"C20.total-is-the-sum: {got} expected {sum(sval.values())}")
+    elif fn == "get_total_discovery_value":
+        got = net.get_total_discovery_value()
+        if not eq(got, sum(float(v) for v in sc["dval"])): bad.append(f"C20.total-is-the-sum: {got} expected {sum(sc['dval'])}")
+    elif fn == "get_score_upper_bound":
+        from nasim.envs.environment import NASimEnv
+        env = NASimEnv(scenario, fully_obs=False, flat_actions=True, flat_obs=True)
+        got = env.get_score_upper_bound()
+        want = sum(sval.values()) + sum(float(v) for v in sc["dval"]) - env.network.get_minimal_hops()
+        if not eq(got, want): bad.append(f"C20.bound-is-values-minus-hops: {got} expected {want}")
+    elif fn == "goal_reached":
+        from nasim.envs.environment import NASimEnv
+        from nasim.envs.host_vector import HostVector as HV
+        env = NASimEnv(scenario, fully_obs=False, flat_actions=True, flat_obs=True)
+        HV.reset()
+        h0 = scenario.hosts[addrs[0]]
+        HV._initialize(tuple(sc["bounds"]), h0.services, h0.os, h0.processes)
+        acc_col = sc["bounds"][0] + sc["bounds"][1] + 5
+        before = state.tensor.copy()
+        want = all(before[addrs.index(a)][acc_col] >= 2 for a in sens)
+        env.current_state = state
+        for arg in ((), (state,)):
+            got = env.goal_reached(*arg)
+            if bool(got) != bool(want): bad.append(f"C06.goal-query: goal_reached{'(state)' if arg else '()'} = {got}, sensitive hosts rooted = {want}")
+        if not np.array_equal(state.tensor, before) or env.current_state is not state:
+            bad.append("C06.pure: goal_reached modified the state")
+    else:
+        raise SystemExit(f"scalar oracle: unknown function {fn}")
+    return {"clause_failures": bad}
+
+
 def result_dict(res):
     out = {k: bool(getattr(res, k)) for k in ("success", "connection_error", "permission_error", "undefined_error")}
     out["value"] = float(res.value)
@@ -252,6 +452,10 @@ def run(rep):
                 actual["obs_dtype"] = str(obs.tensor.dtype)
             elif h == "env_action_mask":
                 actual.update(env_action_mask_oracle(rep, scenario, state))
+            elif h == "layout":
+                actual.update(layout_oracle(rep, scenario, net, state))
+            elif h == "scn_scalar":
+                actual.update(scalar_oracle(rep, scenario, net, state))
             elif h == "hv_observe":
                 from nasim.envs.host_vector import HostVector
                 vec = np.array(rep["vector"], dtype=np.float32)
@@ -271,7 +475,7 @@ def run(rep):
     actual["draws_used"] = calls["n"]
     pred = rep.get("predicted", {})
     mism = []
-    if h in ("env_step", "env_action_mask"):
+    if h in ("env_step", "env_action_mask", "layout", "scn_scalar"):
         # clause-level native oracle: reproduced iff some environment-level clause fails on the real code
         fails = actual.get("clause_failures", [])
         if actual.get("exception"):
@@ -300,7 +504,7 @@ if __name__ == "__main__" and len(sys.argv) > 2 and sys.argv[1] == "--batch-actu
             outs.append(run(rep)["actual"])
         except Exception as e:
             outs.append({"exception": f"harness:{type(e).__name__}: {e}"})
-    print(json.dumps(outs))
+    print("@@JSON@@" + json.dumps(outs))
     sys.exit(0)
 
 if __name__ == "__main__" and len(sys.argv) > 2 and sys.argv[1] == "--batch":
@@ -312,7 +516,7 @@ if __name__ == "__main__" and len(sys.argv) > 2 and sys.argv[1] == "--batch":
             outs.append({"reproduced": o["reproduced"], "mismatches": o["mismatches"][:5]})
         except Exception as e:
             outs.append({"reproduced": False, "mismatches": [f"replay raised {type(e).__name__}: {e}"]})
-    print(json.dumps(outs))
+    print("@@JSON@@" + json.dumps(outs))
     sys.exit(0)
 
 if __name__ == "__main__":
